@@ -49,11 +49,11 @@ func (e *retryEngine) Gen(rng *rand.Rand, tier string, n int, emit func(string))
 	tailLost := " dial+:300 ack+:0 dial+:400 ack+:1 dial+:500 ack+:0 dial+:600 ack+:1 dial+:700 ack+:1 dial+:800 ack+:1"
 	// hand-written witnesses of the defects that were repaired (D1, D17, D5, D6) and basic flows
 	emit("t0a0c1 P - pub:1:1 start dial+:10 ack+:0 pub:2:2 sub:61.1 close pub:3:1 dial+:20 ack+:1")
-	emit("t0a0c1 P la,la,la start dial+:10 ack+:0 pub:1:2" + tail)                                      // D1: three lost acks on one QoS 2 message
-	emit("t0a0c1 P ok,la,wf start dial+:10 ack+:0 pub:1:2" + tail)                                      // D17: PUBREL processed, PUBCOMP lost, PUBREL write fails
+	emit("t0a0c1 P la,la,la start dial+:10 ack+:0 pub:1:2" + tail) // D1: three lost acks on one QoS 2 message
+	emit("t0a0c1 P ok,la,wf start dial+:10 ack+:0 pub:1:2" + tail) // D17: PUBREL processed, PUBCOMP lost, PUBREL write fails
 	emit("t0a0c1 R ok,la,wf start dial+:10 ack+:0 pub:1:2" + tail)
-	emit("t0a0c1 P ok,la start dial+:10 ack+:0 sub:61.1 pub:1:1 unsub:61" + tailLost)                  // D5: unsubscribe queued behind a pending publish, session lost
-	emit("t1a0c1 P la,si start dial+:10 ack+:0 pub:1:1" + tail)                                         // D6: silent broker on a retransmission
+	emit("t0a0c1 P ok,la start dial+:10 ack+:0 sub:61.1 pub:1:1 unsub:61" + tailLost)                                                           // D5: unsubscribe queued behind a pending publish, session lost
+	emit("t1a0c1 P la,si start dial+:10 ack+:0 pub:1:1" + tail)                                                                                 // D6: silent broker on a retransmission
 	emit("t1a0c0 P ok,wf,la,ok,si pub:1:2 sub:61.2 start pub:2:0 pub:3:0 dial- pub:4:0 unsub:61 dial+:40000 pub:5:1 dial+:40100 ack+:1" + tail) // D22: queued Subscribe times out, later Unsubscribe overtakes it
 	emit("t1a0c0 P si,ok start dial+:10 ack+:0 close sub:61.1 unsub:61" + tail)                                                                 // D22 minimal
 	emit("t1a0c1 P si start dial+:10 ack+:0 pub:1:2" + tail)
